@@ -32,7 +32,7 @@ ASSUMPTIONS = ["'no timer or task remains' is observed eight loop turns after sh
 def bounds(tier):
     return {"phases": ["refusing", "connecting", "handshake", "initialised", "pending", "after_failed_init", "backoff"],
             "socket_level_close": ["down_queue", "connecting", "write_suspended", "backoff"],
-            "shutdown_instant": "symbolic within the phase's window", "race_with_handshake_answer": "steps 0..5 x 0..23 loop turns after the request, same instant", "race_other_anchors": "0..23 loop turns after: first connection accepted; link reset with immediate reconnect; a zone status push with subscribers", "idle_horizon_s": 700, "reinit": True,
+            "shutdown_instant": "symbolic within the phase's window", "race_with_handshake_answer": "steps 0..5 x 0..23 (thorough also 0..47) loop turns after the request, same instant", "race_other_anchors": "0..23 loop turns after: first connection accepted; link reset with immediate reconnect; a zone status push with subscribers", "idle_horizon_s": 700, "reinit": True,
             "second_shutdown_of_the_new_session": tier == "thorough"}
 
 
@@ -48,10 +48,10 @@ def instances(tier):
         out.append({"phase": "after_failed_init", "gen": g})
         out.append({"phase": "backoff", "gen": g})
         out.append({"phase": "slow_subscriber", "gen": g})
-        out.append({"phase": "initialised", "gen": g, "close_latency": 0.05})      # closing the transport takes 50 ms
+        out.append({"phase": "initialised", "gen": g, "close_latency": 0.0625})      # closing the transport takes 62.5 ms (a dyadic value: float clock arithmetic stays exact)
         out.append({"phase": "connecting", "gen": g, "quick_reinit": True})        # init() again while the old connect is still in flight
-        out.append({"phase": "connecting", "gen": g, "quick_reinit": True, "close_latency": 0.05})
-        out.append({"phase": "initialised", "gen": g, "quick_reinit": True, "close_latency": 0.05})   # init() again while shutdown() is still closing
+        out.append({"phase": "connecting", "gen": g, "quick_reinit": True, "close_latency": 0.0625})
+        out.append({"phase": "initialised", "gen": g, "quick_reinit": True, "close_latency": 0.0625})   # init() again while shutdown() is still closing
         for sc in ("down_queue", "connecting", "write_suspended", "write_suspended_lost", "backoff"):
             out.append({"phase": "sock_close", "gen": g, "scenario": sc})
         for st in range(6):
@@ -62,6 +62,17 @@ def instances(tier):
             # the console also broadcasts its zone/group status unsolicited right behind the answer (as consoles do on any change)
             out.append({"phase": "race", "gen": g, "step": st, "broadcast": True})
         if tier == "thorough":
+            # every phase once more with a transport that takes 62.5 ms to close; the races over 48 loop turns and with the slow close
+            for ph in ("refusing", "connecting", "pending", "after_failed_init", "backoff"):
+                out.append({"phase": ph, "gen": g, "close_latency": 0.0625})
+            for st in range(6):
+                out.append({"phase": "handshake", "gen": g, "step": st, "close_latency": 0.0625})
+                out.append({"phase": "race", "gen": g, "step": st, "turns": 48})
+                out.append({"phase": "race", "gen": g, "step": st, "turns": 24, "close_latency": 0.0625})
+            for anchor in ("accept", "reset", "push"):
+                out.append({"phase": "race", "gen": g, "anchor": anchor, "turns": 48})
+            for sc in ("down_queue", "connecting", "write_suspended", "write_suspended_lost", "backoff"):
+                out.append({"phase": "sock_close", "gen": g, "scenario": sc, "close_latency": 0.0625})
             out.append({"phase": "initialised", "gen": g, "second_cycle": True})
             out.append({"phase": "pending", "gen": g, "second_cycle": True})
             out.append({"phase": "handshake", "gen": g, "step": 2, "second_cycle": True})
@@ -134,13 +145,13 @@ def _quick_reinit(ctx, p):
 
 
 def _slow_subscriber(ctx, p):
-    """An application subscriber takes 100 ms over a notification; shutdown() and a new init() fall into that time (free
+    """An application subscriber takes 125 ms over a notification; shutdown() and a new init() fall into that time (free
     instants). The old session's receive task must not live on into the new session: init() succeeds, one connection is
     in use and stays up, the model follows the console."""
     g = Gen(p["gen"])
     inst = Installation.simple(g.n, n_acs=2, zones_per_ac=2)
-    ts = 1.0 + ctx.real("dts", 0, 0.09, lo_strict=True)
-    r = ctx.real("r", 0, 0.2, lo_strict=True)
+    ts = 1.0 + ctx.real("dts", 0, 0.09375, lo_strict=True)
+    r = ctx.real("r", 0, 0.25, lo_strict=True)
     with ApiRig(ctx, g, inst) as rig:
         con = rig.console
         rig.start()
@@ -148,7 +159,7 @@ def _slow_subscriber(ctx, p):
         ctx.check(rig.init_result is True, "reinit_works", detail="handshake failed")
 
         async def slow(_id):
-            await asyncio.sleep(0.1)
+            await asyncio.sleep(0.125)
 
         rig.ac(0).subscribe(slow)
         inst.ac_status[0] = (r4.build_ac_status(0, 0, 1, 3, 1, 1, 19, 600, 0) if g.n == 4 else r5.build_ac_status(0, 0, 1, 3, 90, 0, 0, 1, 1, 600, 0))
@@ -190,7 +201,7 @@ def run(ctx, p):
     inst = Installation.simple(g.n, n_acs=2, zones_per_ac=2)
     mode = {"accept": phase not in ("refusing",)}
     lat = 3.0 if phase == "connecting" else 0
-    RACE_TURNS = 24
+    RACE_TURNS = p.get("turns", 24)
     window = {"race": (0, 0), "refusing": (0, 7), "connecting": (0, 5), "handshake": (0.25, 6.5), "initialised": (1, 400), "pending": (3, 9),
               "after_failed_init": (5.5, 9), "backoff": (1, 8)}[phase]
     if phase == "race":
@@ -386,6 +397,8 @@ def _sock_close(ctx, p):
     lat = 3.0 if sc == "connecting" else 0
     ts = ctx.real("ts", 0, 7) if sc != "backoff" else ctx.real("ts", 1, 8)
     with Rig(ctx, g) as rig:
+        if p.get("close_latency"):
+            rig.net.close_latency = p["close_latency"]
         rig.net.on_connect = lambda net, n: (("accept", lat) if mode["accept"] else ("refuse",))
         if sc in ("write_suspended", "write_suspended_lost"):
             rig.net.on_drain = lambda conn, n: 4.0        # back-pressure: every drain() takes 4 s
